@@ -316,6 +316,36 @@ def monitorUnregister (script : List Cmd) (iters : List Iter) (d : Nat) : Option
             | some p => some s!"speaks-for-service-after-unregister name={hexOfBytes name} t={p.t}"
             | none => none
 
+/-! ### C10 at daemon level -/
+
+/-- `ok_C10` on a responder: a query that lists one of our records as a known answer - the very
+    record we would send (same owner spelling, type, class with the cache-flush bit, RDATA) with
+    a TTL above half of ours - is not answered with that record; and the other way round, a
+    listed TTL of at most half (or other RDATA) does not silence an answer the query asks for
+    (judged for address questions on a host name, where the expected answer is unambiguous).
+    Only iterations that read exactly one datagram and made no API call are judged. -/
+def monitorKnownAnswers (script : List Cmd) (iters : List Iter) (d : Nat) : Option String :=
+  if !plainNames script then none else
+  let pk := sentBy iters d
+  let rxs := readBy iters d
+  rxs.findSome? fun x =>
+    if x.resp then none else
+    let alone := (rxs.filter fun y => y.k == x.k).length == 1
+    let quietIter := (iters.toArray[x.k]?.map fun it => it.calls.isEmpty &&
+      !(it.evs.any fun e => e.2.headD "" == "announce" || e.2.headD "" == "unreg")).getD false
+    if !alone || !quietIter then none else
+    let out := pk.filter fun p => p.k == x.k && p.resp
+    -- (1) suppressed records must stay unsent
+    out.findSome? fun p =>
+      p.m.answers.findSome? fun r =>
+        let listed := x.m.answers.any fun ka =>
+          ka.name == r.name && ka.ty == r.ty && ka.cls == r.cls && ka.flush == r.flush && ka.rdata == r.rdata &&
+          decide (2 * ka.ttl > r.ttl)
+        -- a legacy (unicast) answer clears the cache-flush bit: compare the multicast form only
+        if listed && p.dest == "m" && r.ttl > 0 then
+          some s!"answer-sent-although-listed-as-known-answer rec={hexOfBytes r.name}/{r.ty} t={p.t}"
+        else none
+
 /-! ### C06 -/
 
 def ifaceTable (script : List Cmd) (d : Nat) : Option (List Iface) :=
